@@ -294,10 +294,20 @@ def agg (le : (L × Option G) → (L × Option G) → Bool) (useGrp : Bool) (t :
     List ((L × Option G) × List α) :=
   aggWith (colMeans t) le useGrp recs
 
-/-- rows of the breeding-value matrix when a genotype matrix is supplied: one per `gtobj.taxa` entry, in that order -/
-def meanBV (le : (L × Option G) → (L × Option G) → Bool) (useGrp : Bool) (t : Nat) (recs : List (Rec L G α))
+/-- `estimate` with a genotype matrix BEFORE the repair of D61: the group-by used `[taxa_col, taxa_grp_col]` whenever
+    `taxa_grp_col` was set, and the join onto `gtobj.taxa` was keyed by the NAME alone — of a name used under two group
+    labels only the LAST aggregated row (greatest group key) reached the output. -/
+def meanBVPrerepair (le : (L × Option G) → (L × Option G) → Bool) (useGrp : Bool) (t : Nat) (recs : List (Rec L G α))
     (gtTaxa : List L) : List (Option (List α)) :=
   gtTaxa.map (lookupLast (agg le useGrp t recs))
+
+/-- rows of the breeding-value matrix when a genotype matrix is supplied (repaired, fix of D61): one per `gtobj.taxa` entry,
+    in that order.  With a genotype matrix the group-by uses the taxon NAME alone (`by = [taxa_col]`, l.132-137) whether or
+    not `taxa_grp_col` is set (`useGrp` is accepted and not used): the records of a name are pooled, the join by name finds
+    exactly one aggregated row. -/
+def meanBV (le : (L × Option G) → (L × Option G) → Bool) (_useGrp : Bool) (t : Nat) (recs : List (Rec L G α))
+    (gtTaxa : List L) : List (Option (List α)) :=
+  meanBVPrerepair le false t recs gtTaxa
 
 /-- without genotype matrix (l.147-158): the aggregated frame as is (taxa in group-by order); `taxa_grp = None` when the
     group column holds no label at all -/
@@ -317,10 +327,15 @@ def colMeansNan (t : Nat) (rows : List (List (Option α))) : List (Option α) :=
 
 /-- `estimate` on a table whose trait cells may be NaN: one row per genotype taxon; an absent taxon is a row of NaN,
     a phenotyped taxon is missing exactly in the traits for which none of its records has a value -/
-def meanBVNan (le : (L × Option G) → (L × Option G) → Bool) (useGrp : Bool) (t : Nat)
+def meanBVNanPrerepair (le : (L × Option G) → (L × Option G) → Bool) (useGrp : Bool) (t : Nat)
     (recs : List (Rec L G (Option α))) (gtTaxa : List L) : List (List (Option α)) :=
   gtTaxa.map (fun name =>
     (lookupLast (aggWith (colMeansNan t) le useGrp recs) name).getD (List.replicate t none))
+
+/-- the same for the repaired code (fix of D61): with a genotype matrix the group-by uses the name alone -/
+def meanBVNan (le : (L × Option G) → (L × Option G) → Bool) (_useGrp : Bool) (t : Nat)
+    (recs : List (Rec L G (Option α))) (gtTaxa : List L) : List (List (Option α)) :=
+  meanBVNanPrerepair le false t recs gtTaxa
 
 /-- the same without genotype matrix: the aggregated frame -/
 def meanBVNanNoGt (le : (L × Option G) → (L × Option G) → Bool) (useGrp : Bool) (t : Nat)
